@@ -55,7 +55,7 @@ CTOR_TRUSTED = ("constructor tie (props/ctor_gen.py): the descriptors are record
 def ctor_theorems(*groups):
     """Generated theorems `ctor_<group>` (recorded descriptors = specification) for the given constructor groups."""
     info, thms = gen_ctors()
-    return [t for t in thms if t.split(".")[-1][len("ctor_"):] in groups]
+    return [t for t in thms if t.split(".")[-1].split("_", 1)[1] in groups]
 
 
 def asm_theorems(*prefixes):
